@@ -7,7 +7,7 @@ Also folds in the 'before strengthening' results kept in seeded/v1_results.json.
 import json, os, re, shutil, subprocess, sys, tempfile
 V = os.path.dirname(os.path.dirname(os.path.abspath(__file__)))
 SD = os.path.join(V, "seeded")
-EXTRA = {"C03": ["C17"], "C04": ["C17"], "C05": ["C17"], "C07": ["C08"], "C08": ["C07"], "C09": ["C03"],
+EXTRA = {"C03": ["C17"], "C04": ["C17", "C05"], "C05": ["C17"], "C07": ["C08"], "C08": ["C07"], "C09": ["C03"],
          "C13": ["C20", "C17"], "C15": ["C03", "C17", "C18"], "C16": [], "C17": ["C03"], "C18": ["C17"], "C20": ["C17"]}
 names = sys.argv[1:] or sorted(d for d in os.listdir(SD) if os.path.isdir(os.path.join(SD, d)) and "-" in d)
 v1 = {}
